@@ -9,7 +9,7 @@ import os
 from .geom import Geo, dec, enc, well_id
 
 LAB_NAMES = ["src", "dst", "plate1", "T", "reservoir", "A", "MTP-96", "x y", "stocks", "dil", "Waste_2", "b",
-             "µ-plate", "a.b", "96er", "N" * 32, "first"]
+             "µ-plate", "a.b", "96er", "N" * 32, "first", "plate ", " lead", "tab\tname"]
 COMPONENTS = ["water", "glucose", "NaCl", "buffer", "x", "dye"]
 
 
@@ -36,6 +36,9 @@ def snap_down(x, regime):
 
 
 def pick_size(rng, kind, size_class):
+    if size_class == "wide":
+        # three-digit column numbers (well IDs such as A100)
+        return (rng.randint(1, 3), rng.randint(100, 120)) if kind == "plate" else (rng.randint(1, 3), rng.randint(100, 104))
     if kind == "plate":
         if size_class == "small":
             return rng.randint(1, 4), rng.randint(1, 6)
@@ -139,9 +142,11 @@ def gen_world(rng, opts=None):
     regime = opts.get("regime") or rng.choice(["quarter", "quarter", "centi", "free"])
     device = opts.get("device") or rng.choice(["evo", "fluent"])
     r = rng.random()
-    size_class = opts.get("size_class") or ("small" if r < 0.70 else "medium" if r < 0.95 else "large")
+    size_class = opts.get("size_class") or ("small" if r < 0.70 else "medium" if r < 0.94 else "large" if r < 0.985 else "wide")
     n = opts.get("n_labware") or rng.choice([1, 2, 2, 2, 3, 3, 4])
     names = rng.sample(LAB_NAMES, n)
+    if opts.get("allow_same_names") and n >= 2 and rng.random() < 0.06:
+        names[1] = names[0]  # two distinct labware objects that happen to carry the same name
     labs = []
     for i in range(n):
         kind = "trough" if rng.random() < opts.get("p_trough", 0.4) else "plate"
@@ -168,9 +173,13 @@ def gen_world(rng, opts=None):
     else:
         mv = rng.choice([12.5, 99.9, 0.75, 250.25, 33.3])
     use_default = mv == 950 and rng.random() < 0.5
+    mv_type = None
+    if not use_default and rng.random() < 0.12:
+        mv_type = "npint" if isinstance(mv, int) else "npfloat"
     wl = {
         "max_volume": enc(mv),
         "max_volume_default": use_default,  # the user script does not pass max_volume at all (library default 950)
+        "max_volume_type": mv_type,  # numpy.int64 / numpy.float64 instead of a builtin number
         "auto_split": opts.get("auto_split", rng.random() < 0.75),
         "diti_mode": rng.random() < 0.25,
         "path_kind": rng.choice(["str", "Path"]),
@@ -226,7 +235,14 @@ def build_worklist(rt, world, scratch=None, device=None):
     if w.get("max_volume_default"):
         wl = cls(path, auto_split=w["auto_split"], diti_mode=w["diti_mode"])
     else:
-        wl = cls(path, max_volume=dec(w["max_volume"]), auto_split=w["auto_split"], diti_mode=w["diti_mode"])
+        mv = dec(w["max_volume"])
+        if w.get("max_volume_type") == "npint":
+            import numpy as np
+            mv = np.int64(mv)
+        elif w.get("max_volume_type") == "npfloat":
+            import numpy as np
+            mv = np.float64(mv)
+        wl = cls(path, max_volume=mv, auto_split=w["auto_split"], diti_mode=w["diti_mode"])
     return wl
 
 
